@@ -316,6 +316,33 @@ func oneRun(r *vp.Recorder, key string, sc scenario, tm tamper) {
 			r.Sample(map[string]any{"scenario": fmt.Sprintf("%s chain of %d %s, segment %d", sc.hf.name, sc.L, sc.kind, sc.seg), "tampered_block": sc.k, "tamper": tm.label, "sync_error": firstLine(err.Error())})
 		}
 	}
+	// a body that broke off mid-stream (declared length longer than what came)
+	// is followed by a response that is exactly the missing remainder: whatever
+	// the first attempt left behind (a digest state, a partial write), prefix and
+	// remainder never add up to the block across two requests
+	if fault.Kind == "declared" && len(fault.Body) > 0 && len(fault.Body) < len(genuine) {
+		rest := append([]byte(nil), genuine[len(fault.Body):]...)
+		p.Script = func(rq *syncfx.Req) *syncfx.Fault {
+			if rq.Kind == "block" && rq.Cid.Equals(target) && rq.N == 1 {
+				return bodyFault("remainder-of-the-broken-off-body", rest)
+			}
+			return nil
+		}
+		w.ResetHooks()
+		var err2 error
+		if pn, pm := vp.Guard(func() { _, err2 = w.Sub.SyncAdChain(ctx, p.AddrInfo()); synctest.Wait() }); pn {
+			r.Violation("panic:"+cls, key, "remainder step: "+firstLine(pm), nil)
+			return
+		}
+		if !audit("after the remainder of a broken-off body was served") {
+			return
+		}
+		if err2 == nil {
+			r.Violation("sync-succeeded-with-tampered-block:remainder-after-broken-off-body:"+sc.kind+":"+sc.hf.name, key, fmt.Sprintf("block %d was first served cut off after %d of %d bytes, then as the remaining %d bytes, and the second sync succeeded", sc.k, len(fault.Body), len(genuine), len(rest)), nil)
+			return
+		}
+		p.Script = nil
+	}
 	// second sync: healthy
 	w.ResetHooks()
 	ret, err = w.Sub.SyncAdChain(ctx, p.AddrInfo())
